@@ -212,7 +212,7 @@ def calSpec (tz : Tz) (ranges : List (String × String)) (b e : Int) (obs : List
 
 /-- Is there an entry with a stride > 1 whose day index, computed from seconds as
     legacytimeperiod.cpp:37 does, is not a whole number of days for some visited day (the range
-    spans a UTC-offset change)?  Classifier input for F-C08b. -/
+    spans a UTC-offset change)?  The situation of the repaired F-C08b; coverage statistic only. -/
 def strideAcrossDst (tz : Tz) (ranges : List (String × String)) (b e : Int) : Bool :=
   let D0 := localDay tz b
   let n := (localDay tz e - D0 + 1).toNat
@@ -228,6 +228,20 @@ def strideAcrossDst (tz : Tz) (ranges : List (String × String)) (b e : Int) : B
           | _, _ => false
         | none => false
     | none => false
+
+/-- Executable check of the assumptions the theorems make about the time-zone parameter (`TzOk`,
+    `TzDrift` in IcingaProofs/C08/CalCore.lean) on the days `lo … hi`: every local day lasts 23–46 h,
+    `localDay` maps the first and the last second of a day to that day, and the UTC offsets at the
+    midnights differ by less than 12 h.  The driver evaluates it on the offset list probed from libc. -/
+def tzOkOn (tz : Tz) (lo hi : Int) : Bool :=
+  let m0 := mkDay tz lo 0
+  (List.range (hi - lo).toNat).all fun i =>
+    let D := lo + i
+    let a := mkDay tz D 0
+    let b := mkDay tz (D + 1) 0
+    let drift := a - m0 - 86400 * (D - lo)
+    decide (82800 ≤ b - a) && decide (b - a ≤ 165600) && localDay tz a == D && localDay tz (b - 1) == D &&
+      decide (-21600 < drift) && decide (drift < 21600)
 
 def dayFormName (k : String) : String :=
   match readDef k with
